@@ -29,6 +29,31 @@ def run(ctx):
     meths = m.methods('UnicodeToLatexEncoder')
     rules(ctx, repo, m, meths)
     ctx.assume('rule callables and regular expressions supplied by the user are outside the rule')
+    # ---- R04p: text kept by the partial encoder is one whole token
+    ctx.rule('R04p', 'PartialLatexToLatexEncoder: whatever is kept unencoded is measured by the token that was read (its '
+                     'end position), never a fixed number of characters', 1)
+    pmod_ = repo.mod('pylatexenc.latexencode._partial_latex_encoder')
+    pst_ = pmod_.methods('PartialLatexToLatexEncoder').get('_do_partial_latex_encode_step')
+    if pst_ is None:
+        raise AnalysisError('anchor vanished: _do_partial_latex_encode_step')
+    try:
+        prc_ = [c for c in symex.Walker(want_returns=True).run(pst_) if c.kind == 'return']
+    except symex.TooManyPaths:
+        prc_ = []
+    badp_, n_keep_ = None, 0
+    for c in prc_:
+        if isinstance(c.sub, ast.Tuple) and c.sub.elts:
+            n_keep_ += 1
+            if isinstance(c.sub.elts[0], ast.Constant) and badp_ is None:
+                badp_ = c
+    ctx.decide('R04p', badp_ is None and n_keep_ > 0, pmod_, badp_.node if badp_ else pst_,
+               'kept text is measured by the token read (%d keeping path(s))' % n_keep_,
+               'the partial encoder keeps a fixed %s character(s) on the path [%s] without reading a token: for a kept '
+               'character that starts a longer token (a comment when %% is kept) only that character is copied and the '
+               'rest of the existing LaTeX is encoded again'
+               % (short(badp_.sub.elts[0], 10) if badp_ else '', ' & '.join(badp_.cond_src())[-100:] if badp_ else ''),
+               construct='_do_partial_latex_encode_step: kept length')
+
     # ---- R04o: the result is the accumulated output object on every path
     ctx.rule('R04o', 'unicode_to_latex() returns the accumulated output (the latex_string_class instance it filled) on every '
                      'path: no shortcut hands back the input or another type', 1)
